@@ -22,7 +22,8 @@ def x_exit(v):
     return ('val exit = 0;\nproc main() is exit(%d)\n' % v).encode()
 
 
-ASM_SOURCES = [('accept', asm_exit(0), 0), ('accept', asm_exit(7), 7), ('accept', b'x\nLDAC 1\nBR x\n', None),
+BIG_ASM = b'BR start\nDATA 16383\nstart\nLDAC 0\nLDBM 1\nSTAI 2\nLDAC 0\nOPR SVC\n' + b'DATA 7\n' * 200100   # image > 200000 words: still an acceptable source
+ASM_SOURCES = [('accept', BIG_ASM, 0), ('accept', asm_exit(0), 0), ('accept', asm_exit(7), 7), ('accept', b'x\nLDAC 1\nBR x\n', None),
                ('reject', b'LDAC @\n', None), ('reject', b'LDAC\n', None), ('reject', b'BR nowhere\n', None), ('reject', b'OPR LDAC\n', None),
                ('reject', b'LDAC 1\nx\nDATA 1\nOPR ADD\ny\nLDAM y\n', None)]
 X_SOURCES = [('accept', x_exit(0), 0), ('accept', x_exit(1), 1), ('accept', x_exit(255), 255), ('accept', x_exit(256), 256), ('accept', x_exit(-1), -1),
@@ -93,6 +94,11 @@ def main():
         os.makedirs(d)
         if exists:
             open(os.path.join(d, 'in.src'), 'wb').write(src)
+        stale = (k % 2 == 1)
+        if stale:
+            # an older binary already sits where the output goes: a rejected run must leave it as it is
+            for n in ('out.bin', 'a.out'):
+                open(os.path.join(d, n), 'wb').write(b'OLD BINARY ' + n.encode())
         before = snapshot(d)
         rc, out, err = run3([tools[tool]] + argv, cwd=d, input=b'', timeout=60)
         after = snapshot(d)
@@ -121,7 +127,9 @@ def main():
                 elif not err.strip():
                     viol = 'rejected source, non-zero status, but no diagnostic'
                 elif changed:
-                    viol = 'rejected source but files were created: %s' % changed
+                    viol = 'rejected source but files were created, truncated or rewritten: %s' % changed
+        if tool in ('hexasm', 'xcmp') and not exists and (rc == 0 or not err.strip() or changed):
+            viol = 'input file does not exist: status %d, diagnostic %r, files %s (expected a diagnostic, non-zero status, nothing written)' % (rc, err.decode('latin1')[:60], changed)
         if tool == 'xrun':
             if cls == 'accept' and rc != (ev & 0xff):
                 viol = 'xrun exit status %d, the program exits with %d' % (rc, ev)
@@ -160,6 +168,23 @@ def main():
         ck.cov['evaluations'] += 2
         if rc2 != (ev & 0xff):
             ck.violation('hexsim exit status %d, the program exits with %d' % (rc2, ev), {'source': src.decode(), 'status': rc2}, tags={'kind': 'cli', 'tool': 'hexsim'})
+        # with a cycle limit that still lets the program reach its exit, the status is still the program's exit value
+        rcI, oI, eI = run3(vlib.big_stack([hv, 'c02run', os.path.basename(tb), '1000000']), cwd=d, input=b'', timeout=120)
+        try:
+            steps = int(dict(x.split('=') for x in oI.decode().split('\n')[0].split()[2:])['steps'])
+        except Exception:
+            steps = None
+        if steps:
+            for m in (steps - 1, steps, steps + 7):
+                if m < 1:
+                    continue
+                rc6, o6, e6 = run3([tools['hexsim'], os.path.basename(tb), '--max-cycles', str(m)], cwd=d, input=b'', timeout=60)
+                rc7, o7, e7 = run3([tools['xrun'], 'in.src', '--max-cycles', str(m)], cwd=d, input=b'', timeout=60)
+                ck.cov['evaluations'] += 2
+                for tool_, rcx in (('hexsim', rc6), ('xrun', rc7)):
+                    if rcx != (ev & 0xff):
+                        ck.violation('%s --max-cycles %d (the program exits on instruction %d): status %d, the program exits with %d' % (tool_, m, steps, rcx, ev),
+                                     {'source': src.decode(), 'max_cycles': m, 'steps': steps, 'status': rcx}, tags={'kind': 'cli', 'tool': tool_, 'class': 'limit'})
         if (rc3, o3) != (rc2, o2):
             ck.violation('xrun (status %d, output %r) is not xcmp followed by hexsim (status %d, output %r)' % (rc3, o3[:40], rc2, o2[:40]),
                          {'source': src.decode()}, tags={'kind': 'cli', 'tool': 'xrun', 'class': 'accept'})
